@@ -590,6 +590,29 @@ func (e *kindEngine) guard(cond ssa.Value, v ssa.Value, depth int) (kset, kset, 
 		if name == "reflect.Value.CanInterface" && x.Call.Args[0] == v {
 			return kValid, kValid, true // it would have panicked on the zero Value
 		}
+		// helper(v.Kind()) where helper is a pure predicate on a reflect.Kind: evaluate it on
+		// every kind constant (constant folding over its body)
+		if callee := x.Call.StaticCallee(); callee != nil && len(x.Call.Args) == 1 && len(callee.Params) == 1 && len(callee.Blocks) > 0 && isReflectKindType(callee.Params[0].Type()) {
+			if kc, isCall := x.Call.Args[0].(*ssa.Call); isCall && staticName(kc) == "reflect.Value.Kind" && kc.Call.Args[0] == v {
+				var t, f kset
+				okAll := true
+				for k := int64(0); k <= 26; k++ {
+					res, ok := evalPredicateOnConst(callee, k, nil)
+					if !ok {
+						okAll = false
+						break
+					}
+					if res {
+						t |= classOfKindConst(k)
+					} else {
+						f |= classOfKindConst(k)
+					}
+				}
+				if okAll {
+					return t, f, true
+				}
+			}
+		}
 		if callee := x.Call.StaticCallee(); callee != nil && len(x.Call.Args) >= 1 && x.Call.Args[0] == v {
 			if inexactPredicates[shortFn(callee)] {
 				return kValid, kAny, true
@@ -1165,4 +1188,9 @@ func kindValidArgs(call *ssa.Call) []kindValidArg {
 		return out
 	}
 	return nil
+}
+
+func isReflectKindType(t types.Type) bool {
+	n, ok := t.(*types.Named)
+	return ok && n.Obj().Pkg() != nil && n.Obj().Pkg().Path() == "reflect" && n.Obj().Name() == "Kind"
 }
